@@ -80,6 +80,10 @@ def regen():
         rc, out = sh([sys.executable, gen])
         if rc != 0:
             raise BuildError("regen", out[-4000:])
+    # the table of native procedures, read from the running code (needs the harness built from the current tree)
+    rc, out = sh([sys.executable, os.path.join(ROOT, "tools", "genbuiltins.py")])
+    if rc != 0:
+        raise BuildError("regen-builtins", out[-4000:])
 
 
 def lake_build(targets):
